@@ -69,6 +69,17 @@ def run(ck):
     dots = E.m_calls("strstr") & E.M(lambda t: E.strip(E.strip(t)["a"][1]).get("v") == "..", "strstr(foundHost, \"..\")")
     ck.require_fact("U1.host-labels", fl, set_host, dots, False, "host(foundHost)", why="(a host with an empty label would be accepted)")
 
+    ck.rule("U1b AnyP::Uri::parse: the '..'/leading-dot rejection looks at a host from which *every* trailing dot has been removed: on each path to it the last evaluation of "
+            "the trailing-dot test `foundHost[--l] == '.'` was false (or the host was empty). A single conditional strip leaves \"name..\" as \"name.\" (an empty last label)")
+    on_host = lambda t: any(n.get("k") == "ref" and n.get("d") == "foundHost" for n in E.walk(t))
+    last_is_dot = E.M(lambda t: E.strip(t).get("k") == "bin" and E.strip(t).get("op") == "==" and any(
+        E.strip(a).get("k") == "idx" and on_host(E.strip(a).get("b")) and E.const(E.strip(a).get("i")) is None and E.const(b) == 46
+        for a, b in ((E.strip(t)["l"], E.strip(t)["r"]), (E.strip(t)["r"], E.strip(t)["l"]))), "(foundHost[last] == '.')")
+    non_empty = E.M(lambda t: E.strip(t).get("k") == "bin" and E.strip(t).get("op") == "<" and E.const(E.strip(t)["l"]) == 0 and "strlen" in E.key(E.strip(t)["r"]) and on_host(E.strip(t)["r"]),
+                    "(0 < strlen(foundHost))")
+    ck.require_any("U1b.all-trailing-dots-removed", parse, lambda ev: ev.get("e") == "call" and dots(ev["x"]), [(last_is_dot, False), (non_empty, False)],
+                   "strstr(foundHost, \"..\")", why="(a host ending in two dots keeps one: an empty label is accepted)")
+
     ck.rule("U2 LOSSY: foundPort must not be produced by atoi/sscanf (trailing garbage accepted, values beyond int wrap before the range test)")
     n = 0
     for s in fl.find(ev_assign("foundPort", ops=("=",))):
